@@ -20,6 +20,7 @@ def judge_results(prop, pairs, prefixes=None):
     clause_count = collections.Counter()
     hashes = set()
     nontrivial = set()
+    proto_drift = []
     for (case, res), v in zip(pairs, verdicts):
         hsh = checklib.trace_hash(res["item"])
         hashes.add(hsh)
@@ -31,17 +32,26 @@ def judge_results(prop, pairs, prefixes=None):
         seen = set()
         for l, clause in v["viol"]:
             clause_count[clause] += 1
+            # request-protocol layer (PR_*): drift between the code and the specification's picture of a run, never a verdict.
+            # (After a FAILED run the processes of the other simulators are not cancelled - open finding D12 - and may still send
+            # a request to a simulator that shutdown() has already stopped: that one is the known consequence of D12.)
+            if clause.startswith("PR_") and not (clause == "PR_request_after_stop" and res["outcome"]["r"] != "ok"):
+                proto_drift.append({"clause": clause, "case": case.get("id"), "event": l})
             if clause.startswith(prefixes) and clause not in seen:
                 seen.add(clause)
                 detail = v["detail"] if v["viol"] and v["viol"][0] == (l, clause) else None
                 findings.append(checklib.Finding(prop, clause, case, res, l, detail))
     stats["events"] = sum(len(i["ev"]) for i in items)
+    for d in proto_drift[:3]:
+        print(f"DRIFT request protocol clause={d['clause']} case={json.dumps(d['case'])[:120]} event={d['event']} (code and specification MosaikRef/ProtoStep differ; not a verdict)")
     return findings, {
         "executions": len(items),
         "distinct_traces": len(hashes),
         "distinct_nontrivial": len(nontrivial),
         "stats": dict(stats),
         "all_clauses_seen": dict(clause_count),
+        "protocol_drift": proto_drift[:10],
+        "protocol_drift_count": len(proto_drift),
         "monitor": info,
     }
 
